@@ -55,6 +55,9 @@ class PrimWorld:
 
     def decide(self, it, v, node):
         it.event("symbolic-truth", node, f"python truth value of symbolic `{E.fmt(v.t, 60)}`", data=v.t)
+        for t, c, _ in self.assumptions:
+            if t == v.t:
+                return c  # the same condition was decided before on this path
         i = len(self.trace)
         c = self.decisions[i] if i < len(self.decisions) else True
         self.trace.append(c)
@@ -102,6 +105,7 @@ class PrimRun:
     args: dict
     where: str
     paths: int = 1
+    alt_terms: list = field(default_factory=list)  # terms of the other python-level paths
 
 
 def arg_terms(prim: str, present: set, typ: Optional[str], scalar_rank: int = 0):
@@ -205,6 +209,8 @@ def run_prim(prog: Program, impl: str, prim: str, present: set, typ, n1: bool,
                  evs, raised, terms, where, paths=len(results))
     if out is not None and not isinstance(out, TV):
         pr.raised = f"returns a non-symbolic value {out!r}"
+    for tr, o, ra, ev, asm in results[1:]:
+        pr.alt_terms.append((o.t if isinstance(o, TV) else None, ra, [a[0] for a in asm], tr))
     return pr
 
 
